@@ -10,4 +10,5 @@ INVARIANT FuturesExact
 INVARIANT ServedOnce
 INVARIANT ServedInPublishOrder
 INVARIANT RaisesOnlyFor
+INVARIANT ForeignHarmless
 CHECK_DEADLOCK FALSE
